@@ -16,6 +16,7 @@ func extractAll(p *pkg, f *facts) {
 	portmapFacts(p, f)
 	configFacts(p, f)
 	startupFacts(p, f)
+	tlsFacts(p, f)
 }
 
 func (p *pkg) constNat(f *facts, leanName, goName string) {
@@ -589,5 +590,73 @@ func startupFacts(p *pkg, f *facts) {
 		f.boolean("acceptLoopBranchesOnRecordMarking", okb, true, "")
 	} else {
 		f.boolean("acceptLoopBranchesOnRecordMarking", false, false, "func acceptLoop not found")
+	}
+}
+
+func tlsFacts(p *pkg, f *facts) {
+	tlsVer := map[string]int64{"tls.VersionTLS10": 0x0301, "tls.VersionTLS11": 0x0302, "tls.VersionTLS12": 0x0303, "tls.VersionTLS13": 0x0304}
+	if fn, ok := p.funcs["TLSConfig.Validate"]; ok {
+		var v int64
+		found := false
+		ast.Inspect(fn.Body, func(n ast.Node) bool {
+			is, ok := n.(*ast.IfStmt)
+			if !ok || found {
+				return true
+			}
+			c := exprString(p.fset, is.Cond)
+			if strings.HasPrefix(c, "tc.MinVersion != 0 && tc.MinVersion < ") && returnsEarly(is.Body) {
+				if x, ok := tlsVer[strings.TrimPrefix(c, "tc.MinVersion != 0 && tc.MinVersion < ")]; ok {
+					v, found = x, true
+				}
+			}
+			return true
+		})
+		f.nat("tlsValidateFloor", v, found, "no `tc.MinVersion != 0 && tc.MinVersion < tls.VersionTLSxx` rejection in Validate")
+	} else {
+		f.nat("tlsValidateFloor", 0, false, "func Validate not found")
+	}
+	if fn, ok := p.funcs["TLSConfig.BuildConfig"]; ok {
+		src := exprString(p.fset, fn.Body)
+		// MinVersion of the returned config is a local that is set to TLS 1.2 when the field is 0
+		pinned := false
+		ast.Inspect(fn.Body, func(n ast.Node) bool {
+			is, ok := n.(*ast.IfStmt)
+			if !ok {
+				return true
+			}
+			c := exprString(p.fset, is.Cond)
+			if (c == "minVersion == 0" || c == "tc.MinVersion == 0") && strings.Contains(exprString(p.fset, is.Body), "tls.VersionTLS12") {
+				pinned = true
+			}
+			return true
+		})
+		pinned = pinned && !strings.Contains(src, "MinVersion:               tc.MinVersion") && !strings.Contains(src, "MinVersion: tc.MinVersion")
+		f.boolean("tlsPinsUnsetMin", pinned, true, "")
+	} else {
+		f.boolean("tlsPinsUnsetMin", false, false, "func BuildConfig not found")
+	}
+	if fn, ok := p.funcs["TLSConfig.Clone"]; ok {
+		shares := false
+		ast.Inspect(fn.Body, func(n ast.Node) bool {
+			if kv, ok := n.(*ast.KeyValueExpr); ok && exprString(p.fset, kv.Key) == "currentCert" && exprString(p.fset, kv.Value) == "tc.currentCert" {
+				shares = true
+			}
+			return true
+		})
+		// sharing only works if the field is a pointer to the cell
+		ptr := false
+		for _, file := range p.files {
+			ast.Inspect(file, func(n ast.Node) bool {
+				if fld, ok := n.(*ast.Field); ok && len(fld.Names) == 1 && fld.Names[0].Name == "currentCert" {
+					if _, ok := fld.Type.(*ast.StarExpr); ok {
+						ptr = true
+					}
+				}
+				return true
+			})
+		}
+		f.boolean("tlsCloneSharesCert", shares && ptr, true, "")
+	} else {
+		f.boolean("tlsCloneSharesCert", false, false, "func Clone not found")
 	}
 }
